@@ -50,8 +50,8 @@ CHECKS = {
  },
  'C20': {
   'text': 'Proof (partial): for arbitrary chain lists the number of nodes created in each sweep round of from_opchains never exceeds the number of chains with non-zero coefficient '
-          '(uses the vertex-cover size theorem of C18), every successful run is such a sweep; merge_edges/simplify only remove nodes and edges (5 theorems; *_partial: the identification of sweep '
-          'round k with layer k+1 and layer preservation under simplify are validated by the correspondence, not proved). The Schmidt-rank equality for generic parameters cannot be carried by a theorem '
+          '(uses the vertex-cover size theorem of C18), every successful run is such a sweep; merge_edges/simplify only remove nodes and edges and every surviving node keeps its level, so every layer width (bond dimension) is non-increasing under simplify '
+          '(7 theorems; chain_bound_partial: the identification of sweep round k with layer k+1 is validated by the correspondence, not proved). The Schmidt-rank equality for generic parameters cannot be carried by a theorem '
           'here (generic real parameters, numerical rank): it is checked by the oracle (SVD rank vs bond_dims, L <= 6) after a break, and bond dimensions of all compiled graphs are part of the exact '
           'correspondence.',
   'note': KERNEL_NOTE + ' No kernel contracts.',
@@ -93,8 +93,9 @@ CHECKS = {
           'modelled public operation (orthonormalize MPS/MPO both modes incl. dummy bonds, +, -, @, apply_operator, zero_qnumbers, copy) for every kernel with the shape clause only, '
           'and by compress under the output condition scale != 0 (a collapse example shows the condition cannot be dropped for arbitrary oracles; under the C12 norm/sort contracts and '
           '0 <= tol < 1 at least one value is kept); by induction it holds in every reachable state of any history (run_wf*). Boundary charges are kept by orthonormalize for non-zero '
-          'states/operators (full, via C01) and by compress when the returned factors are non-zero. TDVP/DMRG steps and constructors are tied by correspondence only '
-          '(whole TDVP/DMRG calls are compared in C08-C10 incl. the wf flag; from_vector and graph->MPO in C03/C05).',
+          'states/operators (full, via C01), by compress when the returned factors are non-zero, and by single-site TDVP. The history model also contains from_vector (invariant proved for every oracle) and '
+          'TDVP1/2, DMRG1/2: for these, charge-list lengths after TDVP1 and sector preservation of the local Hamiltonian map are proved; block sparsity of their results is carried by the exact '
+          'correspondence of histories (wf flag compared after every step) and listed under not_proved (22 theorems).',
   'note': KERNEL_NOTE + ' Only shape clauses of the QR/SVD kernels are needed for the invariant.',
   'design_ref': 'DESIGN.md §7 C02',
  },
